@@ -1,4 +1,4 @@
-\* C15 quick tier, DASL target 6800: sole-edge images - every control-transfer variant (4-bit operands: lowest / highest value) behind one NOP x target
+\* C15 quick tier, DASL target 6800: sole-edge images - every control-transfer variant (inner values of 4-bit operands: one context) behind one NOP x target
 \* routine behind / before x every closer; the target routine ends with the first return form or a jump back; every image
 \* at the lowest load address where it is legal
 CONSTANTS IsaName = "6800" Orgs = {256, 65280} OrgMode = "min" Pres = {1} AllTerms = FALSE AllVals = FALSE
